@@ -56,7 +56,7 @@ PROPS = {
               " Values are never changed in place by code that did not create them (a cached list is the object the cache holds); side-request handlers evaluate nothing but their switch; every dataset has a cache of its own unless the user handed one in; every operation hands its options on unchanged (only WithOptions mixes its pre-sets in); dotted keys are compared at the dot."
               " The key sets of the parts of a composite are combined by union and nothing else (no `^`, `&`, `-` of part results, no `a.keys(o) or b.keys(o)`)." " A template's placeholders are read off self.template by each operation (a scan kept from construction goes stale when the text is replaced, and with it the reported keys)." " The parts of an expression are told apart by identity alone (two Options that print alike, Value(1) == Value(True)): a part collapsed into a look-alike loses its keys, its validation, its requests and its value.",
               "whether stored values equal uncached evaluation for concrete graphs; prefix relations between run-time key strings "
-              "(a whole-section key partly supplied by a pre-set dictionary, finding F13); history effects",
+              "beyond the one case the WithOptions filter decides (a forced pre-set section the caller's section is merged into, F13, repaired); history effects",
               floors={"R-KC": 30, "R-OA": 80}, filters={"R-LM": ["tells the parts"], "R-TK": ["iterates find_template_keys"], "R-SH": ["evaluates nothing but its switch"], "R-OP": [":iterates"], "R-WI": [":keys:"]}),
     "C02": _p(["R-FP", "R-PO", "R-OA", "R-DC", "R-EO", "R-CP", "R-MC", "R-CW", "R-SK", "R-IS", "R-AI", "R-OC", "R-TK", "R-RE", "R-CC"],
               "Decides the structural conditions for effective memoization: the fingerprint depends on keys(options) only (extra or "
